@@ -92,10 +92,16 @@ def oracle_one(positions, radii, md, grid):
                     return f"overlaps()={ov} but surface distance {M1[i, j]}"
     if grid is None and n >= 2:
         nd = em.get_neighbor_distances(subtract_radius=False)
+        nds = em.get_neighbor_distances(subtract_radius=True)
         for i in range(n):
             row = min(M0[i, j] for j in range(n) if j != i)
             if not math.isclose(nd[i], row, rel_tol=1e-12, abs_tol=1e-12):
                 return f"neighbour distance {nd[i]} is not the row minimum {row}"
+            # surface variant: distance to a nearest neighbour (by centre distance) minus both radii
+            ok_vals = [M1[i, j] for j in range(n) if j != i and math.isclose(M0[i, j], row, rel_tol=1e-12, abs_tol=1e-12)]
+            if not any(math.isclose(nds[i], v, rel_tol=1e-12, abs_tol=1e-12) for v in ok_vals):
+                return (f"neighbour distance with subtracted radii {nds[i]} of droplet {i} is not the surface distance to a "
+                        f"nearest neighbour {ok_vals}")
     ids = {id(d): i for i, d in enumerate(drops)}
     em.remove_overlapping(min_distance=md, grid=grid)
     out = [ids.get(id(d), -1) for d in em]
